@@ -36,7 +36,7 @@ theorem dec3_mono {b0 lo hi : Nat} {o1 o2 p1 p2 : Option Nat} (h1 : OExt o1 p1)
         simp only [dec3] at h ⊢
         split at h
         · exact absurd rfl h
-        · rename_i hc; rw [if_neg hc]
+        · rename_i hc; simp only [if_neg hc]
     · rfl
 
 theorem dec4_mono {b0 lo hi : Nat} {o1 o2 o3 p1 p2 p3 : Option Nat} (h1 : OExt o1 p1)
@@ -51,13 +51,10 @@ theorem dec4_mono {b0 lo hi : Nat} {o1 o2 o3 p1 p2 p3 : Option Nat} (h1 : OExt o
       · simp only [dec4] at h ⊢
         split at h
         · exact absurd rfl h
-        · rename_i hc; rw [if_neg hc]
+        · rename_i hc; simp only [if_neg hc]
       · cases o2 with
         | none =>
           simp only [dec4] at h ⊢
-          split at h
-          · exact absurd rfl h
-          · rename_i hc; rw [if_neg hc]
         | some b2 =>
           rcases h3 with rfl | rfl
           · simp only [dec4] at h ⊢
@@ -65,8 +62,8 @@ theorem dec4_mono {b0 lo hi : Nat} {o1 o2 o3 p1 p2 p3 : Option Nat} (h1 : OExt o
             · rename_i hc
               split at h
               · exact absurd rfl h
-              · rename_i hd; rw [if_pos hc, if_neg hd]
-            · rename_i hc; rw [if_neg hc]
+              · rename_i hd; simp only [if_pos hc, if_neg hd]
+            · rename_i hc; simp only [if_neg hc]
           · rfl
 
 /-- once the decoder has decided, more bytes do not change the decision. -/
@@ -91,11 +88,471 @@ theorem decode4_mono {b0 : Nat} {o1 o2 o3 p1 p2 p3 : Option Nat}
           · rename_i h0; rw [if_pos h0] at h; exact dec4_mono h1 h2 h3 h
           · rfl
 
+theorem dec2_some_ne (b0 a : Nat) : dec2 b0 (some a) ≠ .incomplete := by
+  simp only [dec2]; split <;> simp
+
+theorem dec3_some_ne (b0 lo hi a b : Nat) : dec3 b0 lo hi (some a) (some b) ≠ .incomplete := by
+  simp only [dec3]; repeat' split
+  all_goals simp
+
+theorem dec4_some_ne (b0 lo hi a b c : Nat) :
+    dec4 b0 lo hi (some a) (some b) (some c) ≠ .incomplete := by
+  simp only [dec4]; repeat' split
+  all_goals simp
+
 /-- with all three following bytes present the decoder always decides. -/
 theorem decode4_some_ne_incomplete (b0 a b c : Nat) :
     decode4 b0 (some a) (some b) (some c) ≠ .incomplete := by
-  unfold decode4 dec2 dec3 dec4
-  repeat' split
-  all_goals simp
+  unfold decode4
+  split
+  · simp
+  · split
+    · simp
+    · split
+      · exact dec2_some_ne _ _
+      · split
+        · exact dec3_some_ne _ _ _ _ _
+        · split
+          · exact dec4_some_ne _ _ _ _ _ _
+          · simp
+
+/-! ### what a decision means -/
+
+theorem dec2_ok {b0 cp n : Nat} {o1 : Option Nat} (hb : 0xC2 ≤ b0 ∧ b0 ≤ 0xDF)
+    (h : dec2 b0 o1 = .ok cp n) : n = 2 ∧ 0x80 ≤ cp ∧ cp < 0x800 ∧ o1.isSome = true := by
+  cases o1 with
+  | none => cases h
+  | some b1 =>
+    simp only [dec2] at h
+    split at h
+    · rename_i hc; rw [isCont_iff] at hc
+      simp only [Step.ok.injEq] at h; obtain ⟨rfl, rfl⟩ := h
+      refine ⟨rfl, ?_, ?_, rfl⟩ <;> omega
+    · cases h
+
+theorem dec3_ok {b0 lo hi cp n : Nat} {o1 o2 : Option Nat} (hb : 0xE0 ≤ b0 ∧ b0 ≤ 0xEF)
+    (hlo : 0x80 ≤ lo) (hlo' : b0 ≠ 0xE0 ∨ 0xA0 ≤ lo) (hhi : hi ≤ 0xBF)
+    (hhi' : b0 ≠ 0xED ∨ hi ≤ 0x9F) (h : dec3 b0 lo hi o1 o2 = .ok cp n) :
+    n = 3 ∧ 0x800 ≤ cp ∧ cp < 0x10000 ∧ (cp < 0xD800 ∨ 0xE000 ≤ cp) ∧
+      o1.isSome = true ∧ o2.isSome = true := by
+  cases o1 with
+  | none => cases h
+  | some b1 =>
+    simp only [dec3] at h
+    split at h
+    · rename_i hc
+      rw [Bool.and_eq_true, decide_eq_true_iff, decide_eq_true_iff] at hc
+      cases o2 with
+      | none => cases h
+      | some b2 =>
+        simp only at h
+        split at h
+        · rename_i hd; rw [isCont_iff] at hd
+          simp only [Step.ok.injEq] at h; obtain ⟨rfl, rfl⟩ := h
+          refine ⟨rfl, ?_, ?_, ?_, rfl, rfl⟩ <;> omega
+        · cases h
+    · cases h
+
+theorem dec4_ok {b0 lo hi cp n : Nat} {o1 o2 o3 : Option Nat} (hb : 0xF0 ≤ b0 ∧ b0 ≤ 0xF4)
+    (hlo : 0x80 ≤ lo) (hlo' : b0 ≠ 0xF0 ∨ 0x90 ≤ lo) (hhi : hi ≤ 0xBF)
+    (hhi' : b0 ≠ 0xF4 ∨ hi ≤ 0x8F) (h : dec4 b0 lo hi o1 o2 o3 = .ok cp n) :
+    n = 4 ∧ 0x10000 ≤ cp ∧ cp < 0x110000 ∧
+      o1.isSome = true ∧ o2.isSome = true ∧ o3.isSome = true := by
+  cases o1 with
+  | none => cases h
+  | some b1 =>
+    simp only [dec4] at h
+    split at h
+    · rename_i hc
+      rw [Bool.and_eq_true, decide_eq_true_iff, decide_eq_true_iff] at hc
+      cases o2 with
+      | none => cases h
+      | some b2 =>
+        simp only at h
+        split at h
+        · rename_i hd; rw [isCont_iff] at hd
+          cases o3 with
+          | none => cases h
+          | some b3 =>
+            simp only at h
+            split at h
+            · rename_i he; rw [isCont_iff] at he
+              simp only [Step.ok.injEq] at h; obtain ⟨rfl, rfl⟩ := h
+              refine ⟨rfl, ?_, ?_, rfl, rfl, rfl⟩ <;> omega
+            · cases h
+        · cases h
+    · cases h
+
+theorem dec2_invalid {b0 n : Nat} {o1 : Option Nat} (h : dec2 b0 o1 = .invalid n) : n = 1 := by
+  cases o1 with
+  | none => cases h
+  | some b1 =>
+    simp only [dec2] at h
+    split at h <;> cases h
+    rfl
+
+theorem dec3_invalid {b0 lo hi n : Nat} {o1 o2 : Option Nat}
+    (h : dec3 b0 lo hi o1 o2 = .invalid n) :
+    (n = 1 ∨ n = 2) ∧ (2 ≤ n → o1.isSome = true ∧ o2.isSome = true) := by
+  cases o1 with
+  | none => cases h
+  | some b1 =>
+    simp only [dec3] at h
+    split at h
+    · cases o2 with
+      | none => cases h
+      | some b2 =>
+        simp only at h
+        split at h <;> cases h
+        exact ⟨Or.inr rfl, fun _ => ⟨rfl, rfl⟩⟩
+    · cases h
+      exact ⟨Or.inl rfl, fun h => by omega⟩
+
+theorem dec4_invalid {b0 lo hi n : Nat} {o1 o2 o3 : Option Nat}
+    (h : dec4 b0 lo hi o1 o2 o3 = .invalid n) :
+    (n = 1 ∨ n = 2 ∨ n = 3) ∧ (2 ≤ n → o1.isSome = true ∧ o2.isSome = true) ∧
+      (3 ≤ n → o3.isSome = true) := by
+  cases o1 with
+  | none => cases h
+  | some b1 =>
+    simp only [dec4] at h
+    split at h
+    · cases o2 with
+      | none => cases h
+      | some b2 =>
+        simp only at h
+        split at h
+        · cases o3 with
+          | none => cases h
+          | some b3 =>
+            simp only at h
+            split at h <;> cases h
+            exact ⟨Or.inr (Or.inr rfl), fun _ => ⟨rfl, rfl⟩, fun _ => rfl⟩
+        · cases h
+          exact ⟨Or.inr (Or.inl rfl), fun _ => ⟨rfl, rfl⟩, fun h => by omega⟩
+    · cases h
+      exact ⟨Or.inl rfl, fun h => by omega, fun h => by omega⟩
+
+theorem lenUtf8_le (cp : Nat) : 1 ≤ lenUtf8 cp ∧ lenUtf8 cp ≤ 4 := by
+  unfold lenUtf8; repeat' split
+  all_goals omega
+
+/-- a decoded character: its length is `len_utf8`, it is a scalar value, and all the bytes
+    it spans were present. -/
+theorem decode4_ok {b0 cp n : Nat} {o1 o2 o3 : Option Nat} (h : decode4 b0 o1 o2 o3 = .ok cp n) :
+    n = lenUtf8 cp ∧ isScalar cp = true ∧ 1 ≤ n ∧ n ≤ 4 ∧ (2 ≤ n → o1.isSome = true) ∧
+      (3 ≤ n → o2.isSome = true) ∧ (4 ≤ n → o3.isSome = true) := by
+  unfold decode4 at h
+  rw [isScalar_iff]; unfold lenUtf8
+  split at h
+  · rename_i h0; cases h
+    rw [if_pos h0]
+    exact ⟨rfl, by omega, by omega, by omega, fun h => by omega, fun h => by omega,
+      fun h => by omega⟩
+  · split at h
+    · cases h
+    · split at h
+      · have := dec2_ok (by omega) h
+        rw [if_neg (by omega), if_pos (by omega)]
+        exact ⟨this.1, by omega, by omega, by omega, fun _ => this.2.2.2, fun h => by omega,
+          fun h => by omega⟩
+      · split at h
+        · have := dec3_ok (by omega) (by split <;> omega) (by split <;> omega)
+            (by split <;> omega) (by split <;> omega) h
+          rw [if_neg (by omega), if_neg (by omega), if_pos (by omega)]
+          exact ⟨this.1, by omega, by omega, by omega, fun _ => this.2.2.2.2.1,
+            fun _ => this.2.2.2.2.2, fun h => by omega⟩
+        · split at h
+          · have := dec4_ok (by omega) (by split <;> omega) (by split <;> omega)
+              (by split <;> omega) (by split <;> omega) h
+            rw [if_neg (by omega), if_neg (by omega), if_neg (by omega)]
+            exact ⟨this.1, by omega, by omega, by omega, fun _ => this.2.2.2.1,
+              fun _ => this.2.2.2.2.1, fun _ => this.2.2.2.2.2⟩
+          · cases h
+
+/-- an invalid sequence: between 1 and 3 bytes, all of them present. -/
+theorem decode4_invalid {b0 n : Nat} {o1 o2 o3 : Option Nat}
+    (h : decode4 b0 o1 o2 o3 = .invalid n) :
+    1 ≤ n ∧ n ≤ 3 ∧ (2 ≤ n → o1.isSome = true) ∧ (3 ≤ n → o2.isSome = true) := by
+  unfold decode4 at h
+  split at h
+  · cases h
+  · split at h
+    · cases h; exact ⟨by omega, by omega, fun h => by omega, fun h => by omega⟩
+    · split at h
+      · have := dec2_invalid h
+        exact ⟨by omega, by omega, fun h => by omega, fun h => by omega⟩
+      · split at h
+        · have := dec3_invalid h
+          exact ⟨by omega, by omega, fun h => (this.2 h).1, fun h => by omega⟩
+        · split at h
+          · have := dec4_invalid h
+            exact ⟨by omega, by omega, fun h => (this.2.1 h).1, fun h => (this.2.1 (by omega)).2⟩
+          · cases h; exact ⟨by omega, by omega, fun h => by omega, fun h => by omega⟩
+
+/-! ### lists -/
+
+theorem lt_of_getElem?_isSome {l : List Nat} {k : Nat} (h : l[k]?.isSome = true) :
+    k < l.length := by
+  false_or_by_contra
+  rename_i hn
+  rw [List.getElem?_eq_none (by omega)] at h
+  cases h
+
+theorem oext_append (l q : List Nat) (k : Nat) : OExt l[k]? (l ++ q)[k]? := by
+  by_cases hk : k < l.length
+  · right; rw [List.getElem?_append_left hk]
+  · left; exact List.getElem?_eq_none (by omega)
+
+theorem decodeFirst_cons (b0 : Nat) (rest : List Nat) :
+    decodeFirst (b0 :: rest) = decode4 b0 rest[0]? rest[1]? rest[2]? := rfl
+
+/-- T0a. -/
+theorem decodeFirst_ok {l : List Nat} {cp n : Nat} (h : decodeFirst l = .ok cp n) :
+    n = lenUtf8 cp ∧ n ≤ l.length ∧ 1 ≤ n ∧ isScalar cp = true := by
+  cases l with
+  | nil => cases h
+  | cons b0 rest =>
+    rw [decodeFirst_cons] at h
+    have ⟨h1, h2, h3, h4, h5, h6, h7⟩ := decode4_ok h
+    have a5 := fun h => lt_of_getElem?_isSome (h5 h)
+    have a6 := fun h => lt_of_getElem?_isSome (h6 h)
+    have a7 := fun h => lt_of_getElem?_isSome (h7 h)
+    refine ⟨h1, ?_, h3, h2⟩
+    simp only [List.length_cons]
+    omega
+
+/-- T0b. -/
+theorem decodeFirst_invalid {l : List Nat} {n : Nat} (h : decodeFirst l = .invalid n) :
+    1 ≤ n ∧ n ≤ l.length ∧ n ≤ 3 := by
+  cases l with
+  | nil => cases h
+  | cons b0 rest =>
+    rw [decodeFirst_cons] at h
+    have ⟨h1, h2, h3, h4⟩ := decode4_invalid h
+    have a3 := fun h => lt_of_getElem?_isSome (h3 h)
+    have a4 := fun h => lt_of_getElem?_isSome (h4 h)
+    refine ⟨h1, ?_, h2⟩
+    simp only [List.length_cons]
+    omega
+
+/-- T0c: prefix stability. -/
+theorem decodeFirst_append {p : List Nat} (q : List Nat) (h : decodeFirst p ≠ .incomplete) :
+    decodeFirst (p ++ q) = decodeFirst p := by
+  cases p with
+  | nil => exact absurd rfl h
+  | cons b0 rest =>
+    rw [List.cons_append, decodeFirst_cons, decodeFirst_cons]
+    exact decode4_mono (oext_append _ _ _) (oext_append _ _ _) (oext_append _ _ _) h
+
+/-- T0d: only the first four bytes matter. -/
+theorem decodeFirst_take4 (l : List Nat) : decodeFirst (l.take 4) = decodeFirst l := by
+  cases l with
+  | nil => rfl
+  | cons b0 rest =>
+    rw [List.take_succ_cons, decodeFirst_cons, decodeFirst_cons]
+    simp only [List.getElem?_take]
+    rfl
+
+theorem decodeFirst_incomplete_length : ∀ {l : List Nat}, decodeFirst l = .incomplete →
+    l.length < 4
+  | [], _ => by simp
+  | [_], _ => by simp
+  | [_, _], _ => by simp
+  | [_, _, _], _ => by simp
+  | b0 :: a :: b :: c :: _, h => absurd h (decode4_some_ne_incomplete b0 a b c)
+
+/-! ### round trip -/
+
+theorem encode_length (cp : Nat) : (encode cp).length = lenUtf8 cp := by
+  unfold encode lenUtf8; repeat' split
+  all_goals rfl
+
+theorem dec3_some_ok {b0 lo hi b1 b2 : Nat} (h1 : lo ≤ b1) (h2 : b1 ≤ hi) (h3 : isCont b2 = true) :
+    dec3 b0 lo hi (some b1) (some b2) =
+      .ok ((b0 - 0xE0) * 4096 + (b1 - 0x80) * 64 + (b2 - 0x80)) 3 := by
+  simp only [dec3]
+  rw [if_pos (by rw [Bool.and_eq_true, decide_eq_true_iff, decide_eq_true_iff]; exact ⟨h1, h2⟩),
+    if_pos h3]
+
+theorem dec4_some_ok {b0 lo hi b1 b2 b3 : Nat} (h1 : lo ≤ b1) (h2 : b1 ≤ hi)
+    (h3 : isCont b2 = true) (h4 : isCont b3 = true) :
+    dec4 b0 lo hi (some b1) (some b2) (some b3) =
+      .ok ((b0 - 0xF0) * 262144 + (b1 - 0x80) * 4096 + (b2 - 0x80) * 64 + (b3 - 0x80)) 4 := by
+  simp only [dec4]
+  rw [if_pos (by rw [Bool.and_eq_true, decide_eq_true_iff, decide_eq_true_iff]; exact ⟨h1, h2⟩),
+    if_pos h3, if_pos h4]
+
+/-- T0e: decoding what `encode_utf8` wrote gives the character back, whatever follows. -/
+theorem decodeFirst_encode {cp : Nat} (hs : isScalar cp = true) (q : List Nat) :
+    decodeFirst (encode cp ++ q) = .ok cp (lenUtf8 cp) := by
+  rw [isScalar_iff] at hs
+  by_cases h1 : cp < 0x80
+  · have he : encode cp = [cp] := by unfold encode; rw [if_pos h1]
+    have hl : lenUtf8 cp = 1 := by unfold lenUtf8; rw [if_pos h1]
+    rw [he, hl]
+    show decode4 cp _ _ _ = _
+    unfold decode4; rw [if_pos h1]
+  · by_cases h2 : cp < 0x800
+    · have he : encode cp = [0xC0 + cp / 64, 0x80 + cp % 64] := by
+        unfold encode; rw [if_neg h1, if_pos h2]
+      have hl : lenUtf8 cp = 2 := by unfold lenUtf8; rw [if_neg h1, if_pos h2]
+      rw [he, hl]
+      show decode4 (0xC0 + cp / 64) (some (0x80 + cp % 64)) _ _ = _
+      unfold decode4
+      rw [if_neg (by omega), if_neg (by omega), if_pos (by omega)]
+      simp only [dec2]
+      rw [if_pos ((isCont_iff _).2 (by omega))]
+      simp only [Step.ok.injEq, and_true]; omega
+    · by_cases h3 : cp < 0x10000
+      · have he : encode cp = [0xE0 + cp / 4096, 0x80 + (cp / 64) % 64, 0x80 + cp % 64] := by
+          unfold encode; rw [if_neg h1, if_neg h2, if_pos h3]
+        have hl : lenUtf8 cp = 3 := by unfold lenUtf8; rw [if_neg h1, if_neg h2, if_pos h3]
+        rw [he, hl]
+        show decode4 (0xE0 + cp / 4096) (some (0x80 + (cp / 64) % 64)) (some (0x80 + cp % 64)) _
+          = _
+        unfold decode4
+        rw [if_neg (by omega), if_neg (by omega), if_neg (by omega), if_pos (by omega)]
+        rw [dec3_some_ok (by split <;> omega) (by split <;> omega) ((isCont_iff _).2 (by omega))]
+        simp only [Step.ok.injEq, and_true]; omega
+      · have he : encode cp = [0xF0 + cp / 262144, 0x80 + (cp / 4096) % 64,
+            0x80 + (cp / 64) % 64, 0x80 + cp % 64] := by
+          unfold encode; rw [if_neg h1, if_neg h2, if_neg h3]
+        have hl : lenUtf8 cp = 4 := by unfold lenUtf8; rw [if_neg h1, if_neg h2, if_neg h3]
+        rw [he, hl]
+        show decode4 (0xF0 + cp / 262144) (some (0x80 + (cp / 4096) % 64))
+          (some (0x80 + (cp / 64) % 64)) (some (0x80 + cp % 64)) = _
+        unfold decode4
+        rw [if_neg (by omega), if_neg (by omega), if_neg (by omega), if_neg (by omega),
+          if_pos (by omega)]
+        rw [dec4_some_ok (by split <;> omega) (by split <;> omega) ((isCont_iff _).2 (by omega))
+          ((isCont_iff _).2 (by omega))]
+        simp only [Step.ok.injEq, and_true]; omega
+
+/-! ### decoding is the inverse of encoding -/
+
+theorem dec2_enc {b0 b1 cp n : Nat} (hb : 0xC2 ≤ b0 ∧ b0 ≤ 0xDF)
+    (h : dec2 b0 (some b1) = .ok cp n) : encode cp = [b0, b1] := by
+  simp only [dec2] at h
+  split at h
+  · rename_i hc; rw [isCont_iff] at hc
+    simp only [Step.ok.injEq] at h
+    obtain ⟨hcp, -⟩ := h
+    unfold encode
+    rw [if_neg (by omega), if_pos (by omega)]
+    have e1 : 0xC0 + cp / 64 = b0 := by omega
+    have e2 : 0x80 + cp % 64 = b1 := by omega
+    rw [e1, e2]
+  · cases h
+
+theorem dec3_enc {b0 lo hi b1 b2 cp n : Nat} (hb : 0xE0 ≤ b0 ∧ b0 ≤ 0xEF) (hlo : 0x80 ≤ lo)
+    (hlo' : b0 ≠ 0xE0 ∨ 0xA0 ≤ lo) (hhi : hi ≤ 0xBF)
+    (h : dec3 b0 lo hi (some b1) (some b2) = .ok cp n) : encode cp = [b0, b1, b2] := by
+  simp only [dec3] at h
+  split at h
+  · rename_i hc
+    rw [Bool.and_eq_true, decide_eq_true_iff, decide_eq_true_iff] at hc
+    split at h
+    · rename_i hd; rw [isCont_iff] at hd
+      simp only [Step.ok.injEq] at h
+      obtain ⟨hcp, -⟩ := h
+      unfold encode
+      rw [if_neg (by omega), if_neg (by omega), if_pos (by omega)]
+      have e1 : 0xE0 + cp / 4096 = b0 := by omega
+      have e2 : 0x80 + cp / 64 % 64 = b1 := by omega
+      have e3 : 0x80 + cp % 64 = b2 := by omega
+      rw [e1, e2, e3]
+    · cases h
+  · cases h
+
+theorem dec4_enc {b0 lo hi b1 b2 b3 cp n : Nat} (hb : 0xF0 ≤ b0 ∧ b0 ≤ 0xF4) (hlo : 0x80 ≤ lo)
+    (hlo' : b0 ≠ 0xF0 ∨ 0x90 ≤ lo) (hhi : hi ≤ 0xBF)
+    (h : dec4 b0 lo hi (some b1) (some b2) (some b3) = .ok cp n) :
+    encode cp = [b0, b1, b2, b3] := by
+  simp only [dec4] at h
+  split at h
+  · rename_i hc
+    rw [Bool.and_eq_true, decide_eq_true_iff, decide_eq_true_iff] at hc
+    split at h
+    · rename_i hd; rw [isCont_iff] at hd
+      split at h
+      · rename_i he; rw [isCont_iff] at he
+        simp only [Step.ok.injEq] at h
+        obtain ⟨hcp, -⟩ := h
+        unfold encode
+        rw [if_neg (by omega), if_neg (by omega), if_neg (by omega)]
+        have e1 : 0xF0 + cp / 262144 = b0 := by omega
+        have e2 : 0x80 + cp / 4096 % 64 = b1 := by omega
+        have e3 : 0x80 + cp / 64 % 64 = b2 := by omega
+        have e4 : 0x80 + cp % 64 = b3 := by omega
+        rw [e1, e2, e3, e4]
+      · cases h
+    · cases h
+  · cases h
+
+/-- the bytes a decoded character spans are its `encode_utf8` encoding. -/
+theorem decode4_enc {b0 cp n : Nat} {o1 o2 o3 : Option Nat} (h : decode4 b0 o1 o2 o3 = .ok cp n) :
+    encode cp = b0 :: (o1.toList ++ o2.toList ++ o3.toList).take (n - 1) := by
+  have hk := decode4_ok h
+  unfold decode4 at h
+  split at h
+  · rename_i h0
+    simp only [Step.ok.injEq] at h
+    obtain ⟨rfl, rfl⟩ := h
+    unfold encode; rw [if_pos h0]; rfl
+  · split at h
+    · cases h
+    · split at h
+      · have hn := (dec2_ok (by omega) h).1
+        subst hn
+        cases o1 with
+        | none => cases h
+        | some b1 => rw [dec2_enc (by omega) h]; rfl
+      · split at h
+        · have hn := (dec3_ok (by omega) (by split <;> omega) (by split <;> omega)
+            (by split <;> omega) (by split <;> omega) h).1
+          subst hn
+          cases o1 with
+          | none => cases h
+          | some b1 =>
+            cases o2 with
+            | none => exact absurd (hk.2.2.2.2.2.1 (by omega)) (by simp)
+            | some b2 =>
+              rw [dec3_enc (by omega) (by split <;> omega) (by split <;> omega)
+                (by split <;> omega) h]; rfl
+        · split at h
+          · have hn := (dec4_ok (by omega) (by split <;> omega) (by split <;> omega)
+              (by split <;> omega) (by split <;> omega) h).1
+            subst hn
+            cases o1 with
+            | none => cases h
+            | some b1 =>
+              cases o2 with
+              | none => exact absurd (hk.2.2.2.2.2.1 (by omega)) (by simp)
+              | some b2 =>
+                cases o3 with
+                | none => exact absurd (hk.2.2.2.2.2.2 (by omega)) (by simp)
+                | some b3 =>
+                  rw [dec4_enc (by omega) (by split <;> omega) (by split <;> omega)
+                    (by split <;> omega) h]; rfl
+          · cases h
+
+theorem opts_eq_take3 : ∀ (r : List Nat), r[0]?.toList ++ r[1]?.toList ++ r[2]?.toList = r.take 3
+  | [] => rfl
+  | [_] => rfl
+  | [_, _] => rfl
+  | _ :: _ :: _ :: _ => rfl
+
+/-- T0f: a decoded character was written as its `encode_utf8` encoding. -/
+theorem decodeFirst_ok_take {l : List Nat} {cp n : Nat} (h : decodeFirst l = .ok cp n) :
+    l.take n = encode cp := by
+  cases l with
+  | nil => cases h
+  | cons b0 rest =>
+    rw [decodeFirst_cons] at h
+    have hk := decode4_ok h
+    rw [decode4_enc h, opts_eq_take3, List.take_take]
+    obtain ⟨m, rfl⟩ : ∃ m, n = m + 1 := ⟨n - 1, by omega⟩
+    rw [List.take_succ_cons, Nat.add_sub_cancel, Nat.min_eq_left (by omega)]
 
 end Scryer.Utf8
